@@ -1,15 +1,23 @@
 /-
 C19 - translator tie: the bodies of `spinn5_local_eth_coord`, `spinn5_chip_coord` and
 `spinn5_fpga_link` (rig/geometry.py) are regenerated from the source into `Gen/PyFun.lean`;
-they are proved equal to the model functions the C19 theorems are about.
+they are proved equal to the model functions the C19 theorems are about.  Second round: the generator
+`spinn5_eth_coords` (three nested `for` loops, every loop body a generated definition of its own) and
+`standard_system_dimensions` (early returns, `raise`, `int(sqrt(..))`, a `for` loop over a reversed range that is
+left by `break` and whose variable is read afterwards).
 -/
 import RigModel.Model.C19
 import RigModel.Gen.PyFun
+import RigModel.Lemmas.PyLoops
+import Mathlib.Tactic.SplitIfs
+import Mathlib.Tactic.Ring
+set_option linter.unusedTactic false
+set_option linter.unreachableTactic false
 set_option linter.unusedSimpArgs false
 set_option linter.unusedVariables false
 
 namespace Rig.C19
-open Rig.Gen Rig.Gen.Spinn5
+open Rig.Gen Rig.Gen.Spinn5 Rig.PyLoops
 
 /-- every in-range cell lookup of the model is the plain `getD` lookup of the generated code -/
 private def cellEq (i j : Nat) : Bool :=
@@ -57,5 +65,175 @@ theorem gen_local_eth_coord (x y w h rx ry : Int) (hw : w ≠ 0) (hh : h ≠ 0) 
 theorem gen_fpga_link (x y link rx ry : Int) :
     fpgaLink x y link rx ry = .ok (PyFun.spinn5_fpga_link x y link rx ry) := by
   simp only [fpgaLink, gen_chip_coord, bind, Except.bind, PyFun.spinn5_fpga_link]
+
+/-! ### `spinn5_eth_coords` (generator, three nested loops) -/
+
+theorem flatMap_ite_eq_filterMap {α β : Type} (l : List α) (c : α → Prop) [DecidablePred c] (g : α → β) :
+    l.flatMap (fun a => if c a then [g a] else []) = l.filterMap (fun a => if c a then some (g a) else none) := by
+  induction l with
+  | nil => rfl
+  | cons a t ih =>
+    rw [List.flatMap_cons, List.filterMap_cons, ih]
+    by_cases h : c a <;> simp [h]
+
+/-- innermost loop body: appends the point when it lies inside the machine -/
+theorem eth_loop3 (width height rx ry w h x y : Int) (o : List Pt) (d : Pt) :
+    PyFun.spinn5_eth_coords_loop3 width height rx ry w h x y o d
+      = o ++ (if pymod (x + d.1 + rx) w < width ∧ pymod (y + d.2 + ry) h < height
+              then [(pymod (x + d.1 + rx) w, pymod (y + d.2 + ry) h)] else []) := by
+  unfold PyFun.spinn5_eth_coords_loop3 pymod
+  dsimp only
+  split_ifs <;> first | (simp; done) | (exfalso; simp_all; done) | (exfalso; omega)
+
+theorem eth_loop2 (width height rx ry w h x : Int) (o : List Pt) (y : Int) :
+    PyFun.spinn5_eth_coords_loop2 width height rx ry w h x o y
+      = o ++ ethTriple.filterMap (fun d =>
+          if pymod (x + d.1 + rx) w < width ∧ pymod (y + d.2 + ry) h < height
+          then some (pymod (x + d.1 + rx) w, pymod (y + d.2 + ry) h) else none) := by
+  unfold PyFun.spinn5_eth_coords_loop2
+  dsimp only
+  rw [foldl_append_flatMap _ _ (eth_loop3 width height rx ry w h x y), flatMap_ite_eq_filterMap]
+  rfl
+
+theorem range12_eq (w : Int) : PyFun.pyRange 0 w 12 = range12 w := by
+  rw [pyRange_pos _ _ _ (by decide), range12]
+  have e : (w - 0 + 12 - 1) / 12 = (w + 11) / 12 := by congr 1; omega
+  rw [e]
+  apply List.map_congr_left
+  intro a _
+  omega
+
+theorem eth_loop1 (width height rx ry w h : Int) (o : List Pt) (x : Int) :
+    PyFun.spinn5_eth_coords_loop1 width height rx ry w h o x
+      = o ++ (range12 h).flatMap (fun y => ethTriple.filterMap (fun d =>
+          if pymod (x + d.1 + rx) w < width ∧ pymod (y + d.2 + ry) h < height
+          then some (pymod (x + d.1 + rx) w, pymod (y + d.2 + ry) h) else none)) := by
+  unfold PyFun.spinn5_eth_coords_loop1
+  dsimp only
+  rw [foldl_append_flatMap _ _ (eth_loop2 width height rx ry w h x), range12_eq]
+
+theorem fdiv12 (a : Int) : Int.fdiv a 12 = a / 12 := Int.fdiv_eq_ediv_of_nonneg a (by decide)
+
+/-- `spinn5_eth_coords` as written in the source = the model (the list of yielded points, in order) -/
+theorem gen_eth_coords (width height rx ry : Int) :
+    PyFun.spinn5_eth_coords width height rx ry = ethCoords width height rx ry := by
+  unfold PyFun.spinn5_eth_coords ethCoords
+  dsimp only
+  rw [foldl_append_flatMap _ _ (eth_loop1 _ _ _ _ _ _), range12_eq, List.nil_append]
+  simp only [fdiv12, pymod]
+  rfl
+
+/-! ### `standard_system_dimensions` (a `for` loop left by `break`, its variable read afterwards) -/
+
+/-- the model's outcome as the Python outcome: value / name of the exception -/
+def excStr {α : Type} : Except Err α → Except String α
+  | .ok v => .ok v
+  | .error .zeroDivision => .error "ZeroDivisionError"
+  | .error .indexError => .error "IndexError"
+  | .error .valueError => .error "ValueError"
+
+/-- `reversed(range(1, s + 1))` -/
+theorem down_succ (s : Nat) :
+    (PyFun.pyRange1 1 (((s + 1 : Nat) : Int) + 1)).reverse = ((s + 1 : Nat) : Int) :: (PyFun.pyRange1 1 ((s : Int) + 1)).reverse := by
+  simp only [pyRange1_eq]
+  have e1 : (((s + 1 : Nat) : Int) + 1 - 1).toNat = s + 1 := by omega
+  have e2 : ((s : Int) + 1 - 1).toNat = s := by omega
+  rw [e1, e2, List.range_succ, List.map_append, List.reverse_append]
+  simp only [List.map_cons, List.map_nil, List.reverse_cons, List.reverse_nil, List.nil_append, List.cons_append]
+  congr 1
+  omega
+
+/-- once the loop is left, the remaining elements are skipped -/
+theorem std_loop1_done (n h : Int) (l : List Int) :
+    l.foldl (PyFun.standard_system_dimensions_loop1 n) (true, h) = (true, h) := by
+  induction l with
+  | nil => rfl
+  | cons a t ih => rw [List.foldl_cons]; simpa [PyFun.standard_system_dimensions_loop1] using ih
+
+theorem fmod_natCast (a b : Nat) : Int.fmod (a : Int) (b : Int) = ((a % b : Nat) : Int) := by
+  rw [Int.fmod_eq_emod_of_nonneg _ (by omega)]; exact (Int.natCast_mod a b).symm
+
+/-- one iteration of the search loop -/
+theorem std_loop1_step (n : Int) (k : Nat) (hk : Int.fdiv n 3 = (k : Int)) (h0 : Int) (m : Nat) :
+    PyFun.standard_system_dimensions_loop1 n (false, h0) (m : Int)
+      = if k % m = 0 then (true, (m : Int)) else (false, (m : Int)) := by
+  unfold PyFun.standard_system_dimensions_loop1
+  dsimp only
+  rw [hk, fmod_natCast]
+  simp only [Bool.false_eq_true, if_false]
+  split_ifs <;> first | rfl | (exfalso; omega)
+
+/-- the search loop finds what the model's `searchDown` finds -/
+theorem std_loop1_search (n : Int) (k : Nat) (hk : Int.fdiv n 3 = (k : Int)) :
+    ∀ (s : Nat) (h0 : Int), 0 < s →
+      ((PyFun.pyRange1 1 ((s : Int) + 1)).reverse.foldl (PyFun.standard_system_dimensions_loop1 n) (false, h0)).2
+        = ((searchDown k s : Nat) : Int)
+  | 0, _, hs => by omega
+  | s + 1, h0, _ => by
+    rw [down_succ, List.foldl_cons, std_loop1_step n k hk, searchDown]
+    by_cases hd : k % (s + 1) = 0
+    · rw [if_pos hd, if_pos hd]
+      exact congrArg Prod.snd (std_loop1_done n _ _)
+    · rw [if_neg hd, if_neg hd]
+      by_cases hs : s = 0
+      · subst hs
+        exact absurd (Nat.mod_one k) hd
+      · exact std_loop1_search n k hk s _ (by omega)
+
+theorem searchDown_pos (k : Nat) : ∀ s, 0 < s → 0 < searchDown k s
+  | 0, h => by omega
+  | s + 1, _ => by
+    rw [searchDown]
+    split
+    · omega
+    · rename_i hd
+      by_cases hs : s = 0
+      · subst hs; exact absurd (Nat.mod_one k) hd
+      · exact searchDown_pos k s (by omega)
+
+/-- `standard_system_dimensions` as written in the source = the model (the integer square root being
+Python's `int(sqrt(k))`, see the translator's ASSUMPTION) -/
+theorem gen_std_dims (n : Int) : PyFun.standard_system_dimensions n = excStr (stdDims n) := by
+  unfold PyFun.standard_system_dimensions stdDims
+  by_cases h0 : n = 0
+  · simp only [h0, if_true]; rfl
+  by_cases h1 : n = 1
+  · simp only [h1, if_true]; rfl
+  simp only [h0, h1, if_false, pymod]
+  by_cases h3 : Int.fmod n 3 ≠ 0
+  · simp only [h3, if_true, ne_eq, not_false_eq_true]; rfl
+  simp only [h3, if_false, ne_eq, not_true_eq_false, not_false_eq_true]
+  rw [Int.fmod_eq_emod_of_nonneg _ (by decide)] at h3
+  by_cases hn : n < 0
+  · have : Int.fdiv n 3 < 0 := by rw [Int.fdiv_eq_ediv_of_nonneg _ (by decide)]; omega
+    simp only [PyFun.pyIsqrt, this, hn, if_true]; rfl
+  have hk : Int.fdiv n 3 = ((n / 3).toNat : Int) := by rw [Int.fdiv_eq_ediv_of_nonneg _ (by decide)]; omega
+  have hk1 : 1 ≤ (n / 3).toNat := by omega
+  have hpos : ¬ (Int.fdiv n 3 < 0) := by omega
+  simp only [PyFun.pyIsqrt, hpos, hn, if_false]
+  generalize hkk : (n / 3).toNat = k at *
+  have e : (Int.fdiv n 3).toNat = k := by omega
+  rw [e]
+  have hs : 0 < Nat.sqrt k := Nat.sqrt_pos.mpr (by omega)
+  have hne : ((PyFun.pyRange1 1 ((Nat.sqrt k : Int) + 1)).reverse).isEmpty = false := by
+    obtain ⟨s, hs'⟩ : ∃ s, Nat.sqrt k = s + 1 := ⟨Nat.sqrt k - 1, by omega⟩
+    rw [hs', down_succ]; rfl
+  have hsearch := std_loop1_search n k (by omega) (Nat.sqrt k) 0 hs
+  simp only [hne, Bool.false_eq_true, if_false]
+  generalize hr : List.foldl (PyFun.standard_system_dimensions_loop1 n) (false, (0 : Int)) (PyFun.pyRange1 1 (↑k.sqrt + 1)).reverse = r at *
+  obtain ⟨b, h⟩ := r
+  simp only at hsearch
+  subst hsearch
+  simp only [excStr]
+  have hsd : 0 < searchDown k (Nat.sqrt k) := searchDown_pos k _ hs
+  rw [hk]
+  refine congrArg Except.ok (Prod.ext ?_ ?_)
+  · show (k : Int).fdiv _ * 12 = _
+    rw [Int.fdiv_eq_ediv_of_nonneg _ (by omega)]; push_cast; ring
+  · show ((searchDown k k.sqrt : Nat) : Int) * 12 = _
+    push_cast; ring
+/-- sanity: one board is 8 x 8 chips, 5 boards are refused -/
+example : PyFun.standard_system_dimensions 1 = .ok (8, 8) ∧ PyFun.standard_system_dimensions 5 = .error "ValueError" := by
+  constructor <;> decide
 
 end Rig.C19
